@@ -483,7 +483,12 @@ impl Indexable for ast::ParentClassList {
                 }
             }
         } else if let Some(defm_id) = ctx.scopes.current_defm_id() {
-            for class_ref in self.classes() {
+            for (i, class_ref) in self.classes().enumerate() {
+                // the multiclasses of a defm may be followed by classes for the records it creates
+                if i > 0 && names_class_only(&class_ref, ctx) {
+                    resolve_class_ref_as_class(&class_ref, ctx);
+                    continue;
+                }
                 if let Some(parent_multiclass_id) = resolve_class_ref_as_multiclass(&class_ref, ctx)
                 {
                     let defm = ctx.symbol_map.defm_mut(defm_id);
@@ -499,6 +504,13 @@ impl Indexable for ast::ParentClassList {
         }
         None
     }
+}
+
+fn names_class_only(class_ref: &ast::ClassRef, ctx: &mut IndexCtx) -> bool {
+    let Some((name, _)) = class_ref.name().and_then(|it| utils::identifier(&it, ctx)) else {
+        return false;
+    };
+    ctx.symbol_map.find_multiclass(&name).is_none() && ctx.symbol_map.find_class(&name).is_some()
 }
 
 fn resolve_class_ref_as_class(class_ref: &ast::ClassRef, ctx: &mut IndexCtx) -> Option<RecordId> {
